@@ -28,22 +28,30 @@ TEXT = {
             'two-sided (MUST subset of actual subset of MAY), over generated '
             'worlds in the bounded scope and generated queries, under '
             'several hash seeds.'),
-    'C04': ('failure-placement histories + dump equality', 'pv-seq', '5/C04',
+    'C04': ('failure-placement histories + dump equality; scheduler runs '
+            'with a net-effect monitor per request', 'pv-seq', '5/C04',
             'Rejected writes produced by making the n-th entry of a valid '
             'm-entry write bad for every reason are compared dump-before = '
             'dump-after (generations included); accepted multi-entity writes '
-            'are compared with their body.'),
+            'are compared with their body (placements, inventories, and the '
+            'project/user/type recorded for the consumer). Under the '
+            'transaction scheduler the net effect of all commits of a '
+            'request answered 4xx must be empty.'),
     'C05': ('deterministic transaction-granularity scheduler', 'pv-sched',
             '5/C05',
             'Pairs/triples of provider-writing requests are run under every '
             '<=2-preemption (thorough: <=3 + random) interleaving of their '
             'database transactions; the committed-state sequence decides '
-            'whether a success committed on another generation.'),
+            'whether a success committed on another generation (every '
+            'generation a request carries, at the step where its changes '
+            'commit), serial replay of the real code decides equivalence, '
+            'requests answered 4xx must change nothing.'),
     'C06': ('deterministic transaction-granularity scheduler', 'pv-sched',
             '5/C06',
             'Concurrent writers of one consumer under enumerated transaction '
-            'interleavings; at most one success per carried generation, '
-            'losers change nothing.'),
+            'interleavings; at most one success per carried generation, a '
+            'success moved the generation it carried, final allocations are '
+            'those of the last successful writer, losers change nothing.'),
     'C07': ('scheduler + serial replay of the real code', 'pv-sched', '5/C07',
             'For every explored interleaving the concurrent final dump must '
             'equal the dump of some serial order of the successful requests '
@@ -51,15 +59,20 @@ TEXT = {
     'C08': ('history + referential joins over the dump', 'pv-seq', '5/C08',
             'After every request of generated create/replace/delete '
             'histories the dump is joined for dangling references and the '
-            'DELETE refusal rules are checked.'),
+            'DELETE refusal rules are checked; the same joins on every '
+            'committed state of scheduled races (incl. delete-vs-use) and '
+            'after histories whose writes meet injected faults.'),
     'C09': ('history + forest invariant on the table', 'pv-seq', '5/C09',
             'After every request of generated provider-tree histories the '
             'resource_providers table must be a forest with correct roots; '
-            'reported parent/root and in_tree listings are compared with the '
-            'table; refusal rules checked.'),
+            'reported parent/root through every listing form are compared '
+            'with the table; refusal rules checked; also on every committed '
+            'state of scheduled races and after faulted histories.'),
     'C10': ('history + generation-column oracle', 'pv-seq', '5/C10',
-            'Generation columns of the dumps around every request and the '
-            'generation a write returns.'),
+            'Generation columns of the dumps around every request, the '
+            'generation a write returns, and the generations read back '
+            'through every route that reports one; committing steps of '
+            'scheduled races.'),
     'C11': ('executable reference model of the API contract', 'pv-seq',
             '5/C11',
             'Status and body of every response of generated histories over '
@@ -70,7 +83,10 @@ TEXT = {
             'probe', 'pv-seq', '5/C12',
             'Consumer rows vs allocation rows after every request, '
             'attributes vs last successful writer, and re-creatability with '
-            'consumer_generation null probed on a snapshot.'),
+            'consumer_generation null probed on a snapshot; faulted '
+            'histories, scheduled races, legacy consumers healed by the '
+            'online migration, single requests naming up to 1001 '
+            'consumers.'),
     'C13': ('direct predicate evaluation on the dump', 'pv-seq', '5/C13',
             'GET /resource_providers answers for generated filter '
             'conjunctions are compared with the statement\'s predicate '
@@ -78,7 +94,8 @@ TEXT = {
     'C14': ('exhaustive enumeration of versions x routes x methods + feature '
             'probes', 'pv-seq', '5/C14',
             'Finite space enumerated completely: 42 version settings x every '
-            'route x 6 methods, plus ~60 feature probes at every setting.'),
+            'route x 6 methods, plus ~80 (partly state-dependent) feature '
+            'probes at every setting.'),
     'C15': ('grammar-based request mutation + response well-formedness '
             'monitor', 'pv-seq', '5/C15',
             'Hundreds of thousands of mutated requests; every response is '
@@ -87,20 +104,26 @@ TEXT = {
             'innermost placement frame.'),
     'C16': ('exhaustive enumeration of operations x caller classes x '
             'single-rule overrides', 'pv-seq', '5/C16',
-            'Finite space enumerated completely; dump and SQL statement '
+            'Finite space enumerated completely (operations in the current '
+            'and 21 older request formats, aimed at existing, unknown and '
+            'bare entities, repeated parameters); dump and SQL statement '
             'stream compared around every denied request.'),
     'C17': ('SQL-statement-indexed fault injection', 'pv-fault', '5/C17',
             'For every statement index of every corpus request one fault of '
-            'each kind is injected through SQLAlchemy events; the outcome '
-            'must be exactly-once or clean failure w.r.t. the fault-free '
-            'twin.'),
+            'each kind (and sampled pairs) is injected through SQLAlchemy '
+            'events; the outcome must be exactly-once or clean failure '
+            'w.r.t. the fault-free twin; requests that are refused anyway '
+            'must stay clean failures.'),
     'C18': ('process-kill crash cutting at every statement / commit',
             'pv-crash', '5/C18',
             'A forked child runs the request and os._exit()s at the chosen '
             'point; the recovered database file is dumped and checked.'),
     'C19': ('history with restarts + table oracle', 'pv-seq', '5/C19',
             'traits / resource_classes tables after every request and every '
-            'emulated restart, from empty / partial / full databases.'),
+            'emulated restart (also a failed start-up then a reload in the '
+            'same process), from empty / partial / full databases; '
+            'scheduled races of creations, deletions, renames and a '
+            'start-up synchronisation.'),
     'C20': ('limit sweep against the unlimited answer', 'pv-seq', '5/C20',
             'For generated worlds x queries every limit 1..M+1 under both '
             'randomisation settings and many PRNG seeds.'),
